@@ -12,9 +12,12 @@ import json, os, re, subprocess, sys, time, hashlib, shutil
 
 ROOT = os.path.dirname(os.path.abspath(__file__))
 LEAN = os.path.join(ROOT, "lean")
-HARN = os.path.join(ROOT, "harness")
-WORK = os.path.join(ROOT, "work")
-REPLAYS = os.path.join(ROOT, "replays")
+# developer overrides (used only by tools/seed_matrix.sh to evaluate seeded changes on a scratch copy of the repository)
+HARN = os.environ.get("VERIF_HARNESS_DIR", os.path.join(ROOT, "harness"))
+_SCRATCH = os.environ.get("VERIF_SCRATCH_DIR")
+WORK = os.path.join(_SCRATCH, "work") if _SCRATCH else os.path.join(ROOT, "work")
+REPLAYS = os.path.join(_SCRATCH, "replays") if _SCRATCH else os.path.join(ROOT, "replays")
+EVID = os.path.join(_SCRATCH, "evidence") if _SCRATCH else os.path.join(ROOT, "evidence")
 DRV = os.path.join(LEAN, ".lake", "build", "bin", "drv")
 ALLOWED_AXIOMS = {"propext", "Classical.choice", "Quot.sound"}
 FORBIDDEN = re.compile(r"\b(sorry|admit|native_decide|bv_decide|implemented_by|unsafe)\b|^\s*axiom\s|maxHeartbeats\s+0")
@@ -220,7 +223,7 @@ def main():
         fail_infra(f"unknown property {prop}")
     os.makedirs(WORK, exist_ok=True)
     os.makedirs(REPLAYS, exist_ok=True)
-    os.makedirs(os.path.join(ROOT, "evidence"), exist_ok=True)
+    os.makedirs(EVID, exist_ok=True)
     t0 = time.time()
     fams = FAMILIES[prop]
     bins = sorted(set(b for b, _ in fams))
@@ -341,7 +344,7 @@ def write_evidence(prop, tier, seed, lean, total, distinct, ops, types, samples,
         "assumptions": TRUSTED_BASE + notes,
         "wall_s": round(time.time() - t0, 1), "violations": violations,
     }
-    json.dump(ev, open(os.path.join(ROOT, "evidence", f"{prop}.json"), "w"), indent=1)
+    json.dump(ev, open(os.path.join(EVID, f"{prop}.json"), "w"), indent=1)
 
 
 if __name__ == "__main__":
